@@ -303,7 +303,20 @@ func newWorld(root string, conf *wConf, rng *rand.Rand) *world {
 	w.sndDom = &vfs.Domain{Root: filepath.Join(root, "snd") + string(os.PathSeparator)}
 	w.sndDom.Before = func(ev *vfs.Event) error {
 		if ev.Mut && w.snd != nil {
-			w.snd.action("fs:" + ev.Op)
+			// (the cache file is written under the cache's lock: a crash decided here
+			// makes the write fail instead of parking the writer with the lock held)
+			snd := w.snd
+			if !strings.HasPrefix(ev.Path, w.cacheDir) {
+				snd.action("fs:" + ev.Op) // (the log files: a failing open would end the process)
+				return nil
+			}
+			if snd.isDead() {
+				return errConn
+			}
+			snd.actionNoPark("fs:" + ev.Op)
+			if snd.isDead() {
+				return errConn
+			}
 		}
 		return nil
 	}
@@ -1072,13 +1085,22 @@ func (t *storeWrap) GetOpener() sts.Open {
 }
 func (t *storeWrap) Remove(f sts.File) error {
 	// called under the cache lock (finish) or from the scan clean-up: never sleep here
-	t.s.action("store:remove")
+	// (a crash decided here makes the call fail instead of parking the caller inside
+	// the cache's critical section, where it would block its own instance's other
+	// goroutines on a mutex and, with them, the virtual clock)
+	if t.s.isDead() {
+		return errConn
+	}
+	t.s.actionNoPark("store:remove")
+	if t.s.isDead() {
+		return errConn
+	}
 	if t.s.w.onRemove != nil {
 		t.s.w.onRemove(f.GetName(), f.GetPath())
 	}
 	t.s.w.log.add(wEvent{Kind: "remove", Name: f.GetName(), Gen: t.s.gen})
 	err := t.s.store.Remove(f)
-	t.s.action("store:remove:return")
+	t.s.actionNoPark("store:remove:return")
 	return err
 }
 func (t *storeWrap) Sync(f sts.File) (sts.File, error) {
